@@ -4,6 +4,7 @@ from mc.common import reset_frame_state
 
 ID = 'C02'
 LEVEL = 'model_checking'
+PRELOAD = ['frame.geometry.geometry', 'frame.netlist.netlist', 'frame.die.die', 'frame.allocation.allocation', 'ruamel.yaml', 'mc.common', 'mc.allocbfs']
 RULE = ("BFS over sequences of refine(t,L) (t in {0,0.5,1}, L in {1,2}), uniform_refinement_depth, griddify from every initial allocation: "
         "all sets of <=3 (quick) / <=4 (thorough) disjoint cells on small grids with different numbers of x and y boundaries, occupancy maps from "
         "{empty, one module at 0.3/0.7/1.0, two modules, a zero entry}, recorded depths 0..2, optionally one fixed cell; states merged on the exact "
